@@ -22,4 +22,110 @@ theorem C06_parts_text_expr (cfg : ECfg) (al : List (Str × Val)) (env : Env) (f
           pure (t.getD [] ++ b)) := by
   simp only [partsText, bind, pure]
 
+/-- **C06 (what `text ${e} text` renders to)**: the three parts render to the first literal, the converted value of the
+expression — evaluated once, with `__token` set to it first — and the second literal, concatenated -/
+theorem C06_three_parts_render (cfg : ECfg) (al : List (Str × Val)) (env : Env) (f : Nat) (pre post : Str) (e : TExpr) (tok : Tok)
+    (text : Str) (esc : Esc) (d : Option Str) (lf : Bool) :
+    partsText cfg al env (f + 4) [.lit pre, .expr e tok text, .lit post] esc d lf =
+      (do xSetToken tok
+          let v ← evalT cfg al env (f + 2) e esc d
+          let t ← convPartX cfg env esc d lf v
+          pure (pre ++ (t.getD [] ++ (post ++ [])))) := by
+  rw [C06_parts_text_lit, C06_parts_text_expr, C06_parts_text_lit]
+  simp only [partsText, bind, pure]
+  funext x
+  cases xSetToken tok x with
+  | ok u x1 =>
+    simp only
+    cases evalT cfg al env (f + 2) e esc d x1 with
+    | ok v x2 =>
+      simp only
+      cases convPartX cfg env esc d lf v x2 with
+      | ok t x3 => rfl
+      | raised ex x3 => rfl
+      | unsupported w => rfl
+    | raised ex x2 => rfl
+    | unsupported w => rfl
+  | raised ex x1 => rfl
+  | unsupported w => rfl
+
+end ChamVerif.C06Parts
+
+namespace ChamVerif.C06Parts
+open ChamVerif
+
+/-- **C06 (the value of an interpolated text)**: when the Interpolator splits the text of an interpolation node into
+`pre`, the expression `e` and `post` (`C06_text_expr_text`), the node's value is `pre ++ value ++ post`, where `value` is the
+converted value of `e`, evaluated once with `__token` pointing at it (no implicit translation) -/
+theorem C06_interp_value (cfg : ECfg) (al : List (Str × Val)) (env : Env) (f : Nat) (tok tokE : Tok) (pre post text : Str) (te : TExpr)
+    (esc : Esc) (d : Option Str)
+    (hparts : compileInterp cfg.tc 64 tok true true = .ok [.lit pre, .expr te tokE text, .lit post]) :
+    evalEN cfg al env (f + 1) (.interp tok esc d true true false) =
+      (do xSetToken tok
+          xSetToken tokE
+          let v ← evalT cfg al env 61 te esc d
+          let t ← convPartX cfg env esc d true v
+          pure (Val.str (pre ++ (t.getD [] ++ (post ++ []))))) := by
+  simp only [evalEN, hparts, Bool.false_and, Bool.false_eq_true, if_false, bind, pure]
+  funext x
+  cases hx : xSetToken tok x with
+  | ok u x1 =>
+    simp only [evalParts]
+    have h3 := C06_three_parts_render cfg al env 59 pre post te tokE text esc d true
+    simp only [bind, pure] at h3
+    rw [h3]
+    simp only [bind, pure, if_true]
+    cases xSetToken tokE x1 with
+    | ok u2 x2 =>
+      simp only
+      cases evalT cfg al env (59 + 2) te esc d x2 with
+      | ok v x3 =>
+        simp only
+        cases convPartX cfg env esc d true v x3 with
+        | ok t x4 => rfl
+        | raised ex x4 => rfl
+        | unsupported w => rfl
+      | raised ex x3 => rfl
+      | unsupported w => rfl
+    | raised ex x2 => rfl
+    | unsupported w => rfl
+  | raised ex x1 => rfl
+  | unsupported w => rfl
+
+end ChamVerif.C06Parts
+
+namespace ChamVerif.C06Parts
+open ChamVerif
+
+/-- a string value inserted at a site: escaped for that site, and nothing is offered to the translation function -/
+theorem convPartX_str (cfg : ECfg) (env : Env) (site : Site) (esc : Esc) (d : Option Str) (lf : Bool) (s : Str) (x : XState)
+    (hesc : escQ esc = some (site.q, site.qe)) (hne : esc ≠ .emptyQ) (hlf : lf = true ∨ s ≠ []) :
+    convPartX cfg env esc d lf (.str s) x = .ok (some (site.quote s)) x := by
+  have he : (esc == Esc.emptyQ) = false := by cases esc <;> first | rfl | exact absurd rfl hne
+  have hct : convertTextX cfg env esc d (.str s) x = .ok (some (site.quote s)) x := by
+    simp only [convertTextX, he, Bool.false_eq_true, if_false, bind, offerCall, toQIn, pure, xLiftR, convertText, hesc, quoteVal,
+      Site.quote]
+  cases lf with
+  | true => simp only [convPartX, if_true, hct]
+  | false =>
+    have hs : s ≠ [] := by rcases hlf with h | h; exact absurd h (by simp); exact h
+    have htr : Val.truthy cfg.tab (.str s) = .ok true := by
+      cases s with
+      | nil => exact absurd rfl hs
+      | cons a r => rfl
+    simp only [convPartX, Bool.false_eq_true, if_false, bind, xLiftR, htr, if_true, hct]
+
+/-- **C06 ∘ C02 (an interpolated string is inserted escaped)**: in element text (`esc = .text`), when the expression of
+`pre ${e} post` evaluates to the string `s`, the node's value is `pre ++ escape(s) ++ post` where `escape` is the text-site
+escaping of C02 (`C02_no_raw`, `C02_roundtrip` speak about it) -/
+theorem C06_interp_text_escaped (cfg : ECfg) (al : List (Str × Val)) (env : Env) (f : Nat) (tok tokE : Tok) (pre post text : Str) (te : TExpr)
+    (s : Str) (x x1 : XState)
+    (hparts : compileInterp cfg.tc 64 tok true true = .ok [.lit pre, .expr te tokE text, .lit post])
+    (hev : evalT cfg al env 61 te .text none { x with token := some ((Tok.strip tokE).pos, (Tok.strip tokE).str.length) } = .ok (.str s) x1) :
+    evalEN cfg al env (f + 1) (.interp tok .text none true true false) x =
+      .ok (.str (pre ++ (Site.text.quote s ++ (post ++ [])))) x1 := by
+  rw [C06_interp_value cfg al env f tok tokE pre post text te .text none hparts]
+  simp only [bind, pure, xSetToken, hev,
+    convPartX_str cfg env Site.text .text none true s x1 rfl (by decide) (Or.inl rfl), Option.getD]
+
 end ChamVerif.C06Parts
